@@ -95,15 +95,10 @@ fn inv(m: &Market) -> bool {
     ok
 }
 
-//@ prop=C21 tier=quick kind=hold
-//@ enc=RevertibleBuffer::{start_revertible_operation, pool, clocks, other, rev}, Cache::cache_get_with, Pools::get
-//@ bound=one step from every state of (buffer revision, stored and buffered copy of the pool under observation, clocks, other state) satisfying the revision invariant with rev < u64::MAX (at u64::MAX the code panics "rev overflow" by design); every pool kind (enumerated); other pools zero; unwind 18
-#[kani::proof]
-#[kani::unwind(18)]
-fn c21_a_new_operation_reads_only_stored_state() {
-    let mut i = 0;
-    while i < 16 {
-        let mut m = market_with(&[i], i == 0);
+fn new_operation_reads_only_stored_state(lo: usize, hi: usize) {
+    let mut i = lo;
+    while i < hi {
+        let mut m = market_with(&[i], i == lo);
         kani::assume(inv(&m));
         kani::assume(rv::rev(&m) < u64::MAX);
         let old_rev = rv::rev(&m);
@@ -116,9 +111,37 @@ fn c21_a_new_operation_reads_only_stored_state() {
         assert!(addr(rv::clocks(&m)) == addr(rv::storage_clocks(&m)), "C21: a new operation read buffered clocks");
         assert!(addr(rv::other(&m)) == addr(rv::storage_other(&m)), "C21: a new operation read buffered state");
         assert!(inv(&m));
-        kani::cover!(old_rev > 0 && i == 15);
+        kani::cover!(old_rev > 0 && i + 1 == hi);
         i += 1;
     }
+}
+
+
+//@ prop=C21 tier=quick kind=hold
+//@ enc=RevertibleBuffer::{start_revertible_operation, pool, clocks, other, rev}, Cache::cache_get_with, Pools::get
+//@ bound=one step from every state of (buffer revision, stored and buffered copy of the pool under observation, clocks, other state) satisfying the revision invariant with rev < u64::MAX (at u64::MAX the code panics "rev overflow" by design); pool kinds 0..4 of 16 (enumerated); other pools zero; unwind 18
+#[kani::proof]
+#[kani::unwind(18)]
+fn c21_a_new_operation_reads_only_stored_state_00_03() {
+    new_operation_reads_only_stored_state(0, 4)
+}
+
+//@ prop=C21 tier=thorough kind=hold
+//@ enc=RevertibleBuffer::{start_revertible_operation, pool, clocks, other, rev}, Cache::cache_get_with, Pools::get
+//@ bound=one step from every state of (buffer revision, stored and buffered copy of the pool under observation, clocks, other state) satisfying the revision invariant with rev < u64::MAX (at u64::MAX the code panics "rev overflow" by design); pool kinds 4..10 of 16 (enumerated); other pools zero; unwind 18
+#[kani::proof]
+#[kani::unwind(18)]
+fn c21_a_new_operation_reads_only_stored_state_04_09() {
+    new_operation_reads_only_stored_state(4, 10)
+}
+
+//@ prop=C21 tier=thorough kind=hold
+//@ enc=RevertibleBuffer::{start_revertible_operation, pool, clocks, other, rev}, Cache::cache_get_with, Pools::get
+//@ bound=one step from every state of (buffer revision, stored and buffered copy of the pool under observation, clocks, other state) satisfying the revision invariant with rev < u64::MAX (at u64::MAX the code panics "rev overflow" by design); pool kinds 10..16 of 16 (enumerated); other pools zero; unwind 18
+#[kani::proof]
+#[kani::unwind(18)]
+fn c21_a_new_operation_reads_only_stored_state_10_15() {
+    new_operation_reads_only_stored_state(10, 16)
 }
 
 fn pool_writes_stay_in_the_buffer(lo: usize, hi: usize) {
@@ -246,7 +269,7 @@ fn c21_clock_and_state_writes_stay_in_the_buffer() {
     kani::cover!(!which);
 }
 
-//@ prop=C21 tier=quick kind=hold
+//@ prop=C21 tier=thorough kind=hold
 //@ enc=RevertibleBuffer::{pool, pool_mut}, Cache::{cache_get_with, cache_get_mut_with, is_dirty, set_rev}, Pools::{get,get_mut}
 //@ bound=one step from every state of (buffer revision, stored and buffered copy of the written pool) satisfying the revision invariant, in the middle of an operation (copy written or not); the pool kind is arbitrary among the 16 but only the liquidity pool (Primary) is written in this harness (the per-kind variants are kept experimental: they do not finish); remaining state zero; unwind 18
 //@ timeout=1500
@@ -278,7 +301,7 @@ fn c21_pool_write_stays_in_the_buffer_00_primary() {
     pool_writes_stay_in_the_buffer(0, 1)
 }
 
-//@ prop=C21 tier=quick kind=hold
+//@ prop=C21 tier=thorough kind=hold
 //@ enc=RevertibleBuffer::{pool, pool_mut}, Cache::{cache_get_with, cache_get_mut_with, is_dirty, set_rev}, Pools::{get,get_mut}
 //@ bound=one step from every state of (buffer revision, stored and buffered copies of pool #1 and of its successor in declaration order) satisfying the revision invariant, in the middle of an operation (each copy written or not); remaining state zero; unwind 18
 #[kani::proof]
@@ -287,7 +310,7 @@ fn c21_pool_write_stays_in_the_buffer_01_swap_impact() {
     pool_writes_stay_in_the_buffer(1, 2)
 }
 
-//@ prop=C21 tier=quick kind=hold
+//@ prop=C21 tier=thorough kind=hold
 //@ enc=RevertibleBuffer::{pool, pool_mut}, Cache::{cache_get_with, cache_get_mut_with, is_dirty, set_rev}, Pools::{get,get_mut}
 //@ bound=one step from every state of (buffer revision, stored and buffered copies of pool #2 and of its successor in declaration order) satisfying the revision invariant, in the middle of an operation (each copy written or not); remaining state zero; unwind 18
 #[kani::proof]
@@ -296,7 +319,7 @@ fn c21_pool_write_stays_in_the_buffer_02_claimable_fee() {
     pool_writes_stay_in_the_buffer(2, 3)
 }
 
-//@ prop=C21 tier=quick kind=hold
+//@ prop=C21 tier=thorough kind=hold
 //@ enc=RevertibleBuffer::{pool, pool_mut}, Cache::{cache_get_with, cache_get_mut_with, is_dirty, set_rev}, Pools::{get,get_mut}
 //@ bound=one step from every state of (buffer revision, stored and buffered copies of pool #3 and of its successor in declaration order) satisfying the revision invariant, in the middle of an operation (each copy written or not); remaining state zero; unwind 18
 #[kani::proof]
@@ -305,7 +328,7 @@ fn c21_pool_write_stays_in_the_buffer_03_oi_long() {
     pool_writes_stay_in_the_buffer(3, 4)
 }
 
-//@ prop=C21 tier=quick kind=hold
+//@ prop=C21 tier=thorough kind=hold
 //@ enc=RevertibleBuffer::{pool, pool_mut}, Cache::{cache_get_with, cache_get_mut_with, is_dirty, set_rev}, Pools::{get,get_mut}
 //@ bound=one step from every state of (buffer revision, stored and buffered copies of pool #4 and of its successor in declaration order) satisfying the revision invariant, in the middle of an operation (each copy written or not); remaining state zero; unwind 18
 #[kani::proof]
@@ -314,7 +337,7 @@ fn c21_pool_write_stays_in_the_buffer_04_oi_short() {
     pool_writes_stay_in_the_buffer(4, 5)
 }
 
-//@ prop=C21 tier=quick kind=hold
+//@ prop=C21 tier=thorough kind=hold
 //@ enc=RevertibleBuffer::{pool, pool_mut}, Cache::{cache_get_with, cache_get_mut_with, is_dirty, set_rev}, Pools::{get,get_mut}
 //@ bound=one step from every state of (buffer revision, stored and buffered copies of pool #5 and of its successor in declaration order) satisfying the revision invariant, in the middle of an operation (each copy written or not); remaining state zero; unwind 18
 #[kani::proof]
@@ -323,7 +346,7 @@ fn c21_pool_write_stays_in_the_buffer_05_oi_tokens_long() {
     pool_writes_stay_in_the_buffer(5, 6)
 }
 
-//@ prop=C21 tier=quick kind=hold
+//@ prop=C21 tier=thorough kind=hold
 //@ enc=RevertibleBuffer::{pool, pool_mut}, Cache::{cache_get_with, cache_get_mut_with, is_dirty, set_rev}, Pools::{get,get_mut}
 //@ bound=one step from every state of (buffer revision, stored and buffered copies of pool #6 and of its successor in declaration order) satisfying the revision invariant, in the middle of an operation (each copy written or not); remaining state zero; unwind 18
 #[kani::proof]
@@ -332,7 +355,7 @@ fn c21_pool_write_stays_in_the_buffer_06_oi_tokens_short() {
     pool_writes_stay_in_the_buffer(6, 7)
 }
 
-//@ prop=C21 tier=quick kind=hold
+//@ prop=C21 tier=thorough kind=hold
 //@ enc=RevertibleBuffer::{pool, pool_mut}, Cache::{cache_get_with, cache_get_mut_with, is_dirty, set_rev}, Pools::{get,get_mut}
 //@ bound=one step from every state of (buffer revision, stored and buffered copies of pool #7 and of its successor in declaration order) satisfying the revision invariant, in the middle of an operation (each copy written or not); remaining state zero; unwind 18
 #[kani::proof]
@@ -341,7 +364,7 @@ fn c21_pool_write_stays_in_the_buffer_07_position_impact() {
     pool_writes_stay_in_the_buffer(7, 8)
 }
 
-//@ prop=C21 tier=quick kind=hold
+//@ prop=C21 tier=thorough kind=hold
 //@ enc=RevertibleBuffer::{pool, pool_mut}, Cache::{cache_get_with, cache_get_mut_with, is_dirty, set_rev}, Pools::{get,get_mut}
 //@ bound=one step from every state of (buffer revision, stored and buffered copies of pool #8 and of its successor in declaration order) satisfying the revision invariant, in the middle of an operation (each copy written or not); remaining state zero; unwind 18
 #[kani::proof]
@@ -350,7 +373,7 @@ fn c21_pool_write_stays_in_the_buffer_08_borrowing_factor() {
     pool_writes_stay_in_the_buffer(8, 9)
 }
 
-//@ prop=C21 tier=quick kind=hold
+//@ prop=C21 tier=thorough kind=hold
 //@ enc=RevertibleBuffer::{pool, pool_mut}, Cache::{cache_get_with, cache_get_mut_with, is_dirty, set_rev}, Pools::{get,get_mut}
 //@ bound=one step from every state of (buffer revision, stored and buffered copies of pool #9 and of its successor in declaration order) satisfying the revision invariant, in the middle of an operation (each copy written or not); remaining state zero; unwind 18
 #[kani::proof]
@@ -359,7 +382,7 @@ fn c21_pool_write_stays_in_the_buffer_09_funding_long() {
     pool_writes_stay_in_the_buffer(9, 10)
 }
 
-//@ prop=C21 tier=quick kind=hold
+//@ prop=C21 tier=thorough kind=hold
 //@ enc=RevertibleBuffer::{pool, pool_mut}, Cache::{cache_get_with, cache_get_mut_with, is_dirty, set_rev}, Pools::{get,get_mut}
 //@ bound=one step from every state of (buffer revision, stored and buffered copies of pool #10 and of its successor in declaration order) satisfying the revision invariant, in the middle of an operation (each copy written or not); remaining state zero; unwind 18
 #[kani::proof]
@@ -368,7 +391,7 @@ fn c21_pool_write_stays_in_the_buffer_10_funding_short() {
     pool_writes_stay_in_the_buffer(10, 11)
 }
 
-//@ prop=C21 tier=quick kind=hold
+//@ prop=C21 tier=thorough kind=hold
 //@ enc=RevertibleBuffer::{pool, pool_mut}, Cache::{cache_get_with, cache_get_mut_with, is_dirty, set_rev}, Pools::{get,get_mut}
 //@ bound=one step from every state of (buffer revision, stored and buffered copies of pool #11 and of its successor in declaration order) satisfying the revision invariant, in the middle of an operation (each copy written or not); remaining state zero; unwind 18
 #[kani::proof]
@@ -377,7 +400,7 @@ fn c21_pool_write_stays_in_the_buffer_11_claimable_funding_long() {
     pool_writes_stay_in_the_buffer(11, 12)
 }
 
-//@ prop=C21 tier=quick kind=hold
+//@ prop=C21 tier=thorough kind=hold
 //@ enc=RevertibleBuffer::{pool, pool_mut}, Cache::{cache_get_with, cache_get_mut_with, is_dirty, set_rev}, Pools::{get,get_mut}
 //@ bound=one step from every state of (buffer revision, stored and buffered copies of pool #12 and of its successor in declaration order) satisfying the revision invariant, in the middle of an operation (each copy written or not); remaining state zero; unwind 18
 #[kani::proof]
@@ -395,7 +418,7 @@ fn c21_pool_write_stays_in_the_buffer_13_collateral_sum_long() {
     pool_writes_stay_in_the_buffer(13, 14)
 }
 
-//@ prop=C21 tier=quick kind=hold
+//@ prop=C21 tier=thorough kind=hold
 //@ enc=RevertibleBuffer::{pool, pool_mut}, Cache::{cache_get_with, cache_get_mut_with, is_dirty, set_rev}, Pools::{get,get_mut}
 //@ bound=one step from every state of (buffer revision, stored and buffered copies of pool #14 and of its successor in declaration order) satisfying the revision invariant, in the middle of an operation (each copy written or not); remaining state zero; unwind 18
 #[kani::proof]
@@ -404,7 +427,7 @@ fn c21_pool_write_stays_in_the_buffer_14_collateral_sum_short() {
     pool_writes_stay_in_the_buffer(14, 15)
 }
 
-//@ prop=C21 tier=quick kind=hold
+//@ prop=C21 tier=thorough kind=hold
 //@ enc=RevertibleBuffer::{pool, pool_mut}, Cache::{cache_get_with, cache_get_mut_with, is_dirty, set_rev}, Pools::{get,get_mut}
 //@ bound=one step from every state of (buffer revision, stored and buffered copies of pool #15 and of its successor in declaration order) satisfying the revision invariant, in the middle of an operation (each copy written or not); remaining state zero; unwind 18
 #[kani::proof]
